@@ -263,6 +263,10 @@ pub fn chain_space() -> Space<ChainSpec> {
         d = d.v("ExplicitNoCa", move |c: &mut ChainSpec| c.cas[j].is_ca = IsCaSpec::ExplicitNoCa);
         d = d.v("pathlen 0", move |c: &mut ChainSpec| c.cas[j].is_ca = IsCaSpec::Constrained(0));
         d = d.v("pathlen 1", move |c: &mut ChainSpec| c.cas[j].is_ca = IsCaSpec::Constrained(1));
+        // values around the one-octet INTEGER boundary: enough for any chain here, and must read as such
+        d = d.v("pathlen 127", move |c: &mut ChainSpec| c.cas[j].is_ca = IsCaSpec::Constrained(127));
+        d = d.v("pathlen 128", move |c: &mut ChainSpec| c.cas[j].is_ca = IsCaSpec::Constrained(128));
+        d = d.v("pathlen 255", move |c: &mut ChainSpec| c.cas[j].is_ca = IsCaSpec::Constrained(255));
         dims.push(d);
         let mut d = Dim::new(Box::leak(format!("{}.key_usages", who).into_boxed_str()));
         d = d.v("absent", move |c: &mut ChainSpec| c.cas[j].ku = None);
@@ -504,6 +508,9 @@ pub fn run(prop: &str, tier: &str, replay: Option<&str>) -> i32 {
             ("11.0.0.0/8", cidr(vec![11, 0, 0, 0], 8)),
             ("fd00::/8", cidr(fd00(), 8)),
             ("fd00::/16", cidr(fd00(), 16)),
+            // subtrees that match every name of their family: permitted, they still exclude the other family of the form
+            ("0.0.0.0/0", cidr(vec![0, 0, 0, 0], 0)),
+            ("::/0", cidr(vec![0; 16], 0)),
         ];
         let fd = |b1: u8| {
             let mut v = fd00();
@@ -537,7 +544,7 @@ pub fn run(prop: &str, tier: &str, replay: Option<&str>) -> i32 {
                 }
             }
         }
-        let sec = Section::new("product/name-constraint pairs", "complete product: ordered pairs over 11 subtrees (4 DNS, 5 IPv4 incl. nested with the same and with another base, 2 IPv6) x {both permitted, both excluded, one permitted + one excluded} x {root, intermediate} x 11 leaf names").with_deadline(cap);
+        let sec = Section::new("product/name-constraint pairs", "complete product: ordered pairs over 13 subtrees (4 DNS, 5 IPv4 incl. nested with the same and with another base, 2 IPv6, the two universal subnets 0.0.0.0/0 and ::/0) x {both permitted, both excluded, one permitted + one excluded} x {root, intermediate} x 11 leaf names").with_deadline(cap);
         run::sweep_cases(&sec, &cases, &|c| format!("[{} , {}] placement#{} on issuer #{} leaf {}", subs[c.0].0, subs[c.1].0, c.2, c.3, leaves[c.4].0), &|c| {
             let mut ch = ChainSpec::base();
             let (a, b) = (subs[c.0].1.clone(), subs[c.1].1.clone());
